@@ -193,6 +193,7 @@ type caseState struct {
 	ops       []string
 	dumps     int
 	failed    map[string]bool
+	classes   []string
 }
 
 var caseCounter int
@@ -427,6 +428,25 @@ func (cs *caseState) opExtend(raws []rawPos) {
 				cfg[r.Key] = []interface{}{tls(), tls()}
 			} else {
 				cfg[r.Key] = tls()
+			}
+			// an extension config is opaque JSON: further TLS contexts may sit beside the first one (a context
+			// set, sibling sections, deeper nesting); every one of them carries its own marker key
+			switch rapid.SampledFrom([]string{"single", "single", "set", "siblings", "nested", "all"}).Draw(cs.rt, "eshape") {
+			case "set":
+				cfg[r.Key+"_set"] = []interface{}{tls(), tls(), tls()}
+				cs.classes = append(cs.classes, "extend:context-set")
+			case "siblings":
+				cfg["primary"] = map[string]interface{}{r.Key: tls()}
+				cfg["secondary"] = map[string]interface{}{r.Key: tls()}
+				cs.classes = append(cs.classes, "extend:sibling-contexts")
+			case "nested":
+				cfg["outer"] = map[string]interface{}{"inner": []interface{}{map[string]interface{}{r.Key: tls()}, map[string]interface{}{r.Key: tls()}}}
+				cs.classes = append(cs.classes, "extend:nested-contexts")
+			case "all":
+				cfg[r.Key+"_set"] = []interface{}{tls(), tls()}
+				cfg["primary"] = map[string]interface{}{r.Key: tls()}
+				cfg["outer"] = map[string]interface{}{"inner": []interface{}{map[string]interface{}{r.Key: tls()}}}
+				cs.classes = append(cs.classes, "extend:context-set", "extend:sibling-contexts", "extend:nested-contexts")
 			}
 			cs.posLive[lbl] = true
 		}
@@ -784,6 +804,7 @@ func TestPropDump(t *testing.T) {
 			if reinstall(cs.ops) {
 				classes = append(classes, "history:update-or-re-add")
 			}
+			classes = append(classes, cs.classes...)
 			canon := []byte(hist + "|" + strings.Join(live, ","))
 			ev.Case(partDump, len(live) >= 3, canon, func() interface{} {
 				return map[string]interface{}{"history": cs.ops, "live_positions": live, "markers": len(cs.markers)}
